@@ -220,9 +220,16 @@ def _introspect_fun(
         #     f"{fun_path} in cache, evaluating if {len(dep_paths)} python objects have changed"
         # )
         ids: List[Tuple[CanonicalPath, PythonId]] = []
-        for dep_path in dep_paths:
-            obj = ObjectRetrieval.retrieve_object_global(dep_path, gctx)
-            ids.append((dep_path, PythonId(id(obj))))
+        try:
+            for dep_path in dep_paths:
+                obj = ObjectRetrieval.retrieve_object_global(dep_path, gctx)
+                ids.append((dep_path, PythonId(id(obj))))
+        except DDSException as e:
+            if e.error_code != DDSErrorCode.OBJECT_PATH_NOT_FOUND:
+                raise
+            # An object recorded by an earlier analysis is gone from its module: the code has
+            # changed since then and the function is analysed again.
+            ids = [(fun_path, PythonId(-1))]
         tup = tuple(ids)
         if (fun_path, arg_ctx_hash, tup) in _global_context.cached_fun_interactions:
             # _logger.debug(
